@@ -223,11 +223,13 @@ def dedup : List Nat → List Nat
   | [] => []
   | x :: r => if r.contains x then dedup r else x :: dedup r
 
-/-- the `Constant` / `JoinedStr` / `TemplateStr` branch: `strLns` come from tokenize; every line after a line that ends in
-a backslash is added; all `endLn - ln` following lines must be continuation lines -/
+/-- the `Constant` / `JoinedStr` / `TemplateStr` branch: `strLns` come from tokenize (lines continued INSIDE a string
+token); every line after a line that ends in a real line continuation (`_re_line_end_cont` from the node's start column on
+the first line, from column 0 on later lines — /repo 48b6578; before that `endswith('\\')`) is added; all `endLn - ln`
+following lines must be continuation lines -/
 def strBranch (lines : List Line) (l : Loc) (strLns : List Nat) : EolRes × List Nat :=
   let rng := List.range' l.ln (l.endLn - l.ln)
-  let extra := (rng.filter (fun i => endsBackslash (lines.getD i []))).map (· + 1)
+  let extra := (rng.filter (fun i => lineEndCont (lines.getD i []) (if i == l.ln then l.col else 0))).map (· + 1)
   let lns := dedup (strLns ++ extra)
   if lns.length == l.endLn - l.ln then (.yes, [])
   else (.no, rng.filter (fun i => !lns.contains (i + 1)))
